@@ -49,6 +49,15 @@ def expr(e, env):
         return ("cmp", tuple(type(o).__name__ for o in e.ops), tuple(E(x) for x in [e.left] + list(e.comparators)))
     if isinstance(e, ast.BoolOp):
         return ("bool", type(e.op).__name__, tuple(E(v) for v in e.values))
+    if isinstance(e, (ast.ListComp, ast.GeneratorExp)) and len(e.generators) == 1 and not e.generators[0].ifs and not e.generators[0].is_async:
+        g = e.generators[0]
+        it = E(g.iter)
+        env2 = dict(env)
+        try:
+            _assign(g.target, ("elem", it), env2)
+        except NotStraight:
+            return ("comp", ast.unparse(e))
+        return ("mapc", expr(e.elt, env2), it)
     if isinstance(e, ast.ListComp):
         return ("comp", ast.unparse(e))
     if isinstance(e, ast.Dict):
@@ -113,8 +122,8 @@ def run(stmts, env=None):
             env[st.target.id] = xor(cur, r) if op == "BitXor" else ("op", op, cur, r)
         elif isinstance(st, ast.Expr):
             continue
-        elif isinstance(st, ast.Pass):
-            continue
+        elif isinstance(st, (ast.Pass, ast.Delete, ast.Assert)):
+            continue   # no effect on the names tracked here (deletions of items are effects, recorded elsewhere)
         else:
             raise NotStraight(ast.unparse(st)[:60])
     return env
@@ -188,7 +197,10 @@ def show(t):
 # ----------------------------------------------------------------------------------------------------------------------
 # canonical forms and pattern matching (rename-insensitive comparison of state transformers)
 
-_MODS = ("hmac", "hashlib", "functools", "math", "struct", "os", "operator")
+_MODS = ("hmac", "hashlib", "functools", "math", "struct", "os", "operator", "io", "itertools")
+
+# parameter names of the project's library functions, by bare name (filled by model.load_repo): f(x=a, y=b) == f(a, b)
+SIGNATURES = {}
 
 
 def canon(t):
@@ -247,6 +259,16 @@ def canon(t):
                 if i < len(names):
                     named[names[i]] = a
             return ("call", f, (named.get("key"), named.get("msg")), (("digestmod", named.get("digestmod")),))
+        if f[0] == "fn" and kws and isinstance(f[1], str) and f[1].split(".")[-1] in SIGNATURES:
+            params = SIGNATURES[f[1].split(".")[-1]]
+            named = dict(kws)
+            out = list(args)
+            for p_ in params[len(out):]:
+                if p_ in named:
+                    out.append(named.pop(p_))
+                else:
+                    break
+            args, kws = tuple(out), tuple(sorted(named.items()))
         if f == ("fn", "hashlib.new"):
             named = dict(kws)
             name = args[0] if args else named.get("name")
